@@ -16,6 +16,9 @@ CLAIMS = {
     'C18': dict(
         text="Decides the structural half of the size/emptiness queries: ANS num_words() equals remaining(bulk) plus the symbolic number of words into_compressed appends; range-encoder num_words() equals remaining(bulk) + num_seal_words() and seal() writes exactly num_seal_words() words on every aligned path pair; num_bits = BITS*num_words; the 'fresh/empty' sentinel compared by is_empty/seal/num_seal_words/maybe_exhausted is the constant the constructors store and clear() restores; diagnostic overrides are structural clones of the trait defaults and no possibly-zero power of two reaches a divisor. Not decided: num_valid_bits, maybe_exhausted after the last symbol, bit-coder len(), numeric values of entropy/KL.",
         tech="affine agreement of query return values with loop-summarised export effect counts; sentinel atom agreement; structural (DAG) equality of overrides; two-point constant rule for wrapping_pow2"),
+    'C07': dict(
+        text="Decides the structural half of random access by a potential-function argument: on every success path of RangeEncoder::encode_symbol (words written, loop-summarised) + (change of held-back count) equals the number of one-word window shifts; Pos::pos returns backend position + held-back words; the decoder reads one word per shift under the same renormalisation predicate; RangeDecoder::seek = backend seek, re-read of the window with the constructors' routine, state restore, with both errors propagated; seek(pos()) is symbolically the identity for AnsCoder and ChainCoder; backend seek accepts exactly p<=len; snapshots take &self. Not decided: that decoding after a seek yields the right symbols; maybe_exhausted at the final position.",
+        tech="loop-summarised effect counting against a potential function; symbolic seek(pos()) round trip; dominance/ordering of the seek protocol; difference bounds for backend seek"),
 }
 
 NA = {
